@@ -65,6 +65,7 @@ fn dump<'tcx>(tcx: TyCtxt<'tcx>, out: &str) {
 
     // pass 1: clone every body before any query can steal it
     let mut bodies: Vec<(LocalDefId, Body<'tcx>)> = Vec::new();
+    let mut promoteds: Vec<(LocalDefId, usize, Body<'tcx>)> = Vec::new();
     for def in tcx.hir_body_owners() {
         let kind = tcx.def_kind(def);
         match kind {
@@ -89,11 +90,34 @@ fn dump<'tcx>(tcx: TyCtxt<'tcx>, out: &str) {
         }
         let b = steal.borrow().clone();
         bodies.push((def, b));
+        let (_, prom) = tcx.mir_promoted(def);
+        if !prom.is_stolen() {
+            for (pi, pb) in prom.borrow().iter_enumerated() {
+                promoteds.push((def, pi.as_usize(), pb.clone()));
+            }
+        }
     }
 
     let mut jb = Vec::new();
     for (def, body) in &bodies {
         jb.push(cx.body(*def, body));
+    }
+    for (def, pi, body) in &promoteds {
+        // promoted constants (e.g. `&Some(true)`): same serialisation, path suffixed with promoted[i]
+        let mut j = cx.body(*def, body);
+        if let J::Obj(ref mut kv) = j {
+            for (k, v) in kv.iter_mut() {
+                if *k == "path" {
+                    if let J::Str(s) = v {
+                        *v = J::Str(format!("{}::promoted[{}]", s, pi));
+                    }
+                }
+                if *k == "kind" {
+                    *v = J::s("Promoted");
+                }
+            }
+        }
+        jb.push(j);
     }
 
     // ADTs, impls, traits, foreign items
